@@ -192,13 +192,13 @@ Proof.
       eapply (ENV good_rd); [exact C2|exists (OK y); split; [exact EGY|]; intros a [= <-]; exact (eq_refl y)|]. intros a <-.
       destruct (assoc_get refpath (m_origins y)) as [reflist|] eqn:EA; [|apply (ENV good_ret); [exact C2|exact I]].
       assert (FR : Forall (fun e => e < w_next w2) reflist).
-      { apply model_ok_iff in MOY as (_ & _ & D). eapply assoc_get_ok; eauto. }
+      { apply model_ok_iff in MOY as (_ & D). eapply assoc_get_ok; eauto. }
       (* set_model *)
       eapply (ENV good_bind _ _ w2 (fun _ w3 => w_next w3 = w_next w2)).
       { exists (OK tt), (wmodel w2 m (set_origins y (assoc_remove refpath (m_origins y)))).
         split; [reflexivity|]. split; [|split; [apply ext_wmodel|reflexivity]].
-        apply Closed_wmodel; [exact C2|]. apply model_ok_iff in MOY as (A & B & D). apply model_ok_iff. cbn.
-        split; [exact A|]. split; [exact B|apply assoc_remove_ok; exact D]. }
+        apply Closed_wmodel; [exact C2|]. apply model_ok_iff in MOY as (A & D). apply model_ok_iff. cbn.
+        split; [exact A|apply assoc_remove_ok; exact D]. }
       intros [] w3 C3 X3 N3. cbv zeta.
       eapply (ENV good_bind _ _ w3 (fun _ w4 => w_next w4 = w_next w3)).
       { refine (good_sin_upd_refs ((base ++ new_name) ++ partial) reflist w3 C3 _).
@@ -206,8 +206,8 @@ Proof.
       intros [] w4 C4 X4 N4.
       eapply (ENV good_weaken); [apply (ENV good_modify_model w4 m _ C4)|intros; exact I].
       * eapply ext_models; [exact X4|]. eapply ext_models; [exact X3|exact Lm2].
-      * intros z MOZ. apply model_ok_iff in MOZ as (A & B & D). apply model_ok_iff. cbn.
-        split; [exact A|]. split; [exact B|].
+      * intros z MOZ. apply model_ok_iff in MOZ as (A & D). apply model_ok_iff. cbn.
+        split; [exact A|].
         assert (FR4 : Forall (fun e => e < w_next w4) reflist).
         { rewrite Forall_forall in *. intros e IN. rewrite N4, N3. auto. }
         destruct (assoc_get _ (m_origins z)) as [l0|] eqn:EZ.
